@@ -141,6 +141,21 @@ func (c *FnCtx) genCandidates(li *loopInfo) []*candidate {
 			}
 		}
 	}
+	// state kept in fields: monotone or unchanged with respect to the entry state
+	for _, x := range ints {
+		if strings.Contains(x, ".") {
+			texts = append(texts, fmt.Sprintf("old(%s) <= %s", x, x))
+			texts = append(texts, fmt.Sprintf("old(%s) == %s", x, x))
+		}
+	}
+	for _, sz := range sizes {
+		if strings.Contains(sz, ".") {
+			inner := strings.TrimSuffix(strings.TrimPrefix(strings.TrimPrefix(sz, "len("), "cap("), ")")
+			if strings.HasPrefix(sz, "len(") {
+				texts = append(texts, fmt.Sprintf("old(%s) == %s", inner, inner))
+			}
+		}
+	}
 	var out []*candidate
 	// automatic frame candidates: objects that existed at function entry are unchanged
 	var ws []string
@@ -151,6 +166,17 @@ func (c *FnCtx) genCandidates(li *loopInfo) []*candidate {
 	for _, h := range ws {
 		if srt, ok := c.heapSort[h]; ok && !c.isLocalHeap(h) && h != "ALLOC" && len(srt) > 10 && srt[:10] == "(Array Int" {
 			out = append(out, &candidate{text: "pre-existing objects unchanged in " + h, frame: h, alive: true})
+			// weaker: all pre-existing objects except those the parameters point to
+			var ex []string
+			for _, p := range c.fn.Params {
+				switch types.Unalias(p.Type()).Underlying().(type) {
+				case *types.Pointer, *types.Slice, *types.Map:
+					ex = append(ex, p.Name())
+				}
+			}
+			if len(ex) > 0 {
+				out = append(out, &candidate{text: "pre-existing objects other than the parameters' unchanged in " + h, frame: h, except: ex, alive: true})
+			}
 		}
 	}
 	if li.writes["*"] {
